@@ -28,6 +28,11 @@ def items(tier, seed):
         for f in ("ic", "uplink_fields"):      # many paths (str() of SI/II codes forks): partition the input space
             for part in PARTS:
                 out.append(("%s-%d-%s" % (f, n, part), {"n": n, "part": part}))
+    # history mode (harness.decide): the same call on an earlier interrogation (other RR / other UF / other CL) first
+    out += [("uplink_fields-112-sel-di3-hi@after:b9+b10_13", {"n": 112, "part": "sel-di3-hi"}),
+            ("uplink_fields-56-sel-other@after:b9+b10_13", {"n": 56, "part": "sel-other"}),
+            ("bds-112@after:b9+b10_13", {"n": 112}), ("ic-56-uf11-cl2@after:b14_16", {"n": 56, "part": "uf11-cl2"}),
+            ("lockout-56@after:UF", {"n": 56}), ("pr-56@after:b6_8", {"n": 56})]
     return out
 
 
